@@ -136,12 +136,15 @@ def main(tier, replay):
         "saved image; there the same restart point with the option off must be bitwise equal and the deviating run must be bitwise the run from "
         "the lifted image). Known finding em-formula:tof-subset-sensitivity-by-symmetries-of-non-tof-projector: TOF data, > 1 subset, subset "
         "sensitivities, view symmetries requested: the sensitivity subset differs from the data subset; pinned from both sides (the implementation "
-        "must then be exactly data-subset numerator / that other sensitivity).",
+        "must then be exactly data-subset numerator / that other sensitivity). Known finding em-formula:tof-voxels-seen-by-tof-matrix-only-have-sensitivity-0: "
+        "TOF data, view symmetries requested, image wider than the field of view: edge voxels seen by the TOF matrix only have sensitivity 0 and a "
+        "positive numerator and become inf, also with one subset; pinned: every non-finite voxel must have s = 0 in the implementation and in the "
+        "explicit non-TOF matrix, a positive numerator and a positive sensitivity in the explicit TOF matrix.",
         extra=dict(input_distribution=cov))
     chk.assumptions += ["float rounding, overflow/underflow and signed zeros are not modelled (exact Rat + derived tolerance)",
                         "subset gradient-plus-sensitivity, subset sensitivities, prior gradient and user filters (inter-update, inter-iteration, post) are data for the model (C05/C09), except in the `emx` operations where the model forms numerator and sensitivity from the explicit system matrix (its elements are data: C04) on the regular region of divide_and_truncate",
                         "randomised subset order excluded (C06)",
-                        "user filters are harness-defined DataProcessors set through the setters also on objects made from a parameter file (a registered filter parsed from the file is not exercised); TOF data without normalisation and with the default `use time-of-flight sensitivities := 0` only; `sensitivity filename := 1` (sensitivity forced to 1) not exercised; a real step that yields a non-finite image ends its case without verdict (seen on TOF geometries: numerator of the TOF matrix non-zero at an edge voxel where the sensitivity of the non-TOF matrix is 0); zoom 1; parametric images, MPI, KOSMAPOSL not covered",
+                        "user filters are harness-defined DataProcessors set through the setters also on objects made from a parameter file (a registered filter parsed from the file is not exercised); TOF data without normalisation and with the default `use time-of-flight sensitivities := 0` only; `sensitivity filename := 1` (sensitivity forced to 1) not exercised; a real step that turns a finite non-negative image into a non-finite one is judged (ORACLE-FAIL unless it is one of the two pinned TOF classes: known findings em-formula:tof-subset-sensitivity-by-symmetries-of-non-tof-projector and em-formula:tof-voxels-seen-by-tof-matrix-only-have-sensitivity-0) and ends its case; steps from images with negative values or near overflow that become non-finite end their case without verdict; zoom 1; parametric images, MPI, KOSMAPOSL not covered",
                         "resuming from the post-filtered LAST image of a finished run is not a restart in the sense of the property (k < num_subiterations)"]
     if audit:
         vlib.proof_coverage(chk, audit, "cd lean && lake build StirVerif stirdriver && lake env lean ../build/out/Audit_C07.lean")
